@@ -505,3 +505,87 @@ func (m *Mutex) VfOwned() bool {
 	defer s.mu.Unlock()
 	return m.owner != nil
 }
+
+// ---- skeleton fast path -------------------------------------------------
+//
+// disk.New creates 768 sub-directories and lists every one of them; on a
+// directory tree the harness has already populated and knows to be empty
+// outside its "hot" sub-directories this costs ~10 ms of syscalls per
+// instance. SetFastSkeleton lets the os shim answer those calls from
+// knowledge: MkdirAll of an existing skeleton directory is a no-op, ReadDir
+// of a non-hot leaf directory returns no entries. Drivers that use it verify
+// the premise with a full directory walk at every checked step.
+
+type skeleton struct {
+	root string
+	hot  map[string]bool
+}
+
+var fastSkel atomic.Pointer[skeleton]
+
+// SetFastSkeleton enables the fast path for the tree rooted at root (which
+// must already hold the full skeleton); hot lists relative leaf dirs like
+// "cas.v2/ab" that must always be really listed. root=="" disables.
+func SetFastSkeleton(root string, hot []string) {
+	if root == "" {
+		fastSkel.Store(nil)
+		return
+	}
+	sk := &skeleton{root: strings.TrimRight(root, "/"), hot: map[string]bool{}}
+	for _, h := range hot {
+		sk.hot[h] = true
+	}
+	fastSkel.Store(sk)
+}
+
+func (sk *skeleton) rel(path string) (string, bool) {
+	if !strings.HasPrefix(path, sk.root) {
+		return "", false
+	}
+	r := path[len(sk.root):]
+	if r == "" {
+		return "", true
+	}
+	if r[0] != '/' {
+		return "", false
+	}
+	return r[1:], true
+}
+
+// FastDir reports that path is an existing skeleton directory.
+func FastDir(path string) bool {
+	sk := fastSkel.Load()
+	if sk == nil {
+		return false
+	}
+	r, ok := sk.rel(path)
+	if !ok {
+		return false
+	}
+	if r == "" {
+		return true
+	}
+	// "<ks>.v2" or "<ks>.v2/xx"
+	parts := strings.Split(r, "/")
+	if len(parts) > 2 || !(parts[0] == "cas.v2" || parts[0] == "ac.v2" || parts[0] == "raw.v2") {
+		return false
+	}
+	return len(parts) == 1 || len(parts[1]) == 2
+}
+
+// FastEmpty reports that name is a non-hot leaf directory of the skeleton.
+func FastEmpty(name string) bool {
+	sk := fastSkel.Load()
+	if sk == nil {
+		return false
+	}
+	r, ok := sk.rel(name)
+	if !ok {
+		return false
+	}
+	parts := strings.Split(r, "/")
+	if len(parts) != 2 || len(parts[1]) != 2 || !(parts[0] == "cas.v2" || parts[0] == "ac.v2" || parts[0] == "raw.v2") {
+		return false
+	}
+	return !sk.hot[r]
+}
